@@ -639,24 +639,284 @@ section
 variable (nm md la lf lm ra rf rm k sk m : V)
 
 theorem ppR (lo : Nat) (hi : Option Nat) (h : MultOK rm lo hi) :
-    ∃ k' sk' m', forIn [V.str "rightMultiplicity.max", V.str "rightMultiplicity.min"] (assocV nm md la lf lm ra rf rm, k, sk, m) ppBody =
-      (.ok (assocV nm md la lf lm ra rf (rMult lo hi), k', sk', m') : M _) := by
+    ∃ k' sk' m', ∀ rest, forIn (V.str "rightMultiplicity.max" :: V.str "rightMultiplicity.min" :: rest) (assocV nm md la lf lm ra rf rm, k, sk, m) ppBody =
+      forIn rest (assocV nm md la lf lm ra rf (rMult lo hi), k', sk', m') ppBody := by
   obtain ⟨x, a, ha, rfl, hm⟩ := h
   rcases hm with ⟨rfl, rfl⟩ | ⟨y, b, hb, rfl, rfl⟩
   · rcases ha with ⟨rfl, rfl⟩ | ⟨n, rfl, hd⟩
-    · exact ⟨_, _, _, (forIn_cons_ok _ _ _ _ _ (ppR_max_none_star ..)).trans ((forIn_cons_ok _ _ _ _ _ (ppR_min_star ..)).trans rfl)⟩
-    · exact ⟨_, _, _, (forIn_cons_ok _ _ _ _ _ (ppR_max_none_int _ _ _ _ _ _ _ _ _ _ _ _ hd)).trans
-        ((forIn_cons_ok _ _ _ _ _ (ppR_min_int _ _ _ _ _ _ _ _ _ _ _ _ _ hd)).trans rfl)⟩
+    · exact ⟨_, _, _, fun _ => (forIn_cons_ok _ _ _ _ _ (ppR_max_none_star ..)).trans (forIn_cons_ok _ _ _ _ _ (ppR_min_star ..))⟩
+    · exact ⟨_, _, _, fun _ => (forIn_cons_ok _ _ _ _ _ (ppR_max_none_int _ _ _ _ _ _ _ _ _ _ _ _ hd)).trans
+        (forIn_cons_ok _ _ _ _ _ (ppR_min_int _ _ _ _ _ _ _ _ _ _ _ _ _ hd))⟩
   · rcases hb with ⟨rfl, rfl⟩ | ⟨n', rfl, hd'⟩
     · rcases ha with ⟨rfl, rfl⟩ | ⟨n, rfl, hd⟩
-      · exact ⟨_, _, _, (forIn_cons_ok _ _ _ _ _ (ppR_max_star ..)).trans ((forIn_cons_ok _ _ _ _ _ (ppR_min_star ..)).trans rfl)⟩
-      · exact ⟨_, _, _, (forIn_cons_ok _ _ _ _ _ (ppR_max_star ..)).trans
-          ((forIn_cons_ok _ _ _ _ _ (ppR_min_int _ _ _ _ _ _ _ _ _ _ _ _ _ hd)).trans rfl)⟩
+      · exact ⟨_, _, _, fun _ => (forIn_cons_ok _ _ _ _ _ (ppR_max_star ..)).trans (forIn_cons_ok _ _ _ _ _ (ppR_min_star ..))⟩
+      · exact ⟨_, _, _, fun _ => (forIn_cons_ok _ _ _ _ _ (ppR_max_star ..)).trans
+          (forIn_cons_ok _ _ _ _ _ (ppR_min_int _ _ _ _ _ _ _ _ _ _ _ _ _ hd))⟩
     · rcases ha with ⟨rfl, rfl⟩ | ⟨n, rfl, hd⟩
-      · exact ⟨_, _, _, (forIn_cons_ok _ _ _ _ _ (ppR_max_int _ _ _ _ _ _ _ _ _ _ _ _ _ hd')).trans
-          ((forIn_cons_ok _ _ _ _ _ (ppR_min_star ..)).trans rfl)⟩
-      · exact ⟨_, _, _, (forIn_cons_ok _ _ _ _ _ (ppR_max_int _ _ _ _ _ _ _ _ _ _ _ _ _ hd')).trans
-          ((forIn_cons_ok _ _ _ _ _ (ppR_min_int _ _ _ _ _ _ _ _ _ _ _ _ _ hd)).trans rfl)⟩
+      · exact ⟨_, _, _, fun _ => (forIn_cons_ok _ _ _ _ _ (ppR_max_int _ _ _ _ _ _ _ _ _ _ _ _ _ hd')).trans
+          (forIn_cons_ok _ _ _ _ _ (ppR_min_star ..))⟩
+      · exact ⟨_, _, _, fun _ => (forIn_cons_ok _ _ _ _ _ (ppR_max_int _ _ _ _ _ _ _ _ _ _ _ _ _ hd')).trans
+          (forIn_cons_ok _ _ _ _ _ (ppR_min_int _ _ _ _ _ _ _ _ _ _ _ _ _ hd))⟩
+
+theorem ppL (lo : Nat) (hi : Option Nat) (h : MultOK lm lo hi) :
+    ∃ k' sk' m', ∀ rest, forIn (V.str "leftMultiplicity.max" :: V.str "leftMultiplicity.min" :: rest) (assocV nm md la lf lm ra rf rm, k, sk, m) ppBody =
+      forIn rest (assocV nm md la lf (rMult lo hi) ra rf rm, k', sk', m') ppBody := by
+  obtain ⟨x, a, ha, rfl, hm⟩ := h
+  rcases hm with ⟨rfl, rfl⟩ | ⟨y, b, hb, rfl, rfl⟩
+  · rcases ha with ⟨rfl, rfl⟩ | ⟨n, rfl, hd⟩
+    · exact ⟨_, _, _, fun _ => (forIn_cons_ok _ _ _ _ _ (ppL_max_none_star ..)).trans (forIn_cons_ok _ _ _ _ _ (ppL_min_star ..))⟩
+    · exact ⟨_, _, _, fun _ => (forIn_cons_ok _ _ _ _ _ (ppL_max_none_int _ _ _ _ _ _ _ _ _ _ _ _ hd)).trans
+        (forIn_cons_ok _ _ _ _ _ (ppL_min_int _ _ _ _ _ _ _ _ _ _ _ _ _ hd))⟩
+  · rcases hb with ⟨rfl, rfl⟩ | ⟨n', rfl, hd'⟩
+    · rcases ha with ⟨rfl, rfl⟩ | ⟨n, rfl, hd⟩
+      · exact ⟨_, _, _, fun _ => (forIn_cons_ok _ _ _ _ _ (ppL_max_star ..)).trans (forIn_cons_ok _ _ _ _ _ (ppL_min_star ..))⟩
+      · exact ⟨_, _, _, fun _ => (forIn_cons_ok _ _ _ _ _ (ppL_max_star ..)).trans
+          (forIn_cons_ok _ _ _ _ _ (ppL_min_int _ _ _ _ _ _ _ _ _ _ _ _ _ hd))⟩
+    · rcases ha with ⟨rfl, rfl⟩ | ⟨n, rfl, hd⟩
+      · exact ⟨_, _, _, fun _ => (forIn_cons_ok _ _ _ _ _ (ppL_max_int _ _ _ _ _ _ _ _ _ _ _ _ _ hd')).trans
+          (forIn_cons_ok _ _ _ _ _ (ppL_min_star ..))⟩
+      · exact ⟨_, _, _, fun _ => (forIn_cons_ok _ _ _ _ _ (ppL_max_int _ _ _ _ _ _ _ _ _ _ _ _ _ hd')).trans
+          (forIn_cons_ok _ _ _ _ _ (ppL_min_int _ _ _ _ _ _ _ _ _ _ _ _ _ hd))⟩
+
+/-- `_post_process_multitudes` on the dict `visitAssociation` has built -/
+theorem pp_tie (self : Self) (llo : Nat) (lhi : Option Nat) (rlo : Nat) (rhi : Option Nat)
+    (hl : MultOK lm llo lhi) (hr : MultOK rm rlo rhi) :
+    _post_process_multitudes self (assocV nm md la lf lm ra rf rm) =
+      .ok (assocV nm md la lf (rMult llo lhi) ra rf (rMult rlo rhi)) := by
+  rw [pp_eq]
+  obtain ⟨k1, sk1, m1, h1⟩ := ppR nm md la lf lm ra rf rm V.unbound V.unbound V.unbound rlo rhi hr
+  obtain ⟨k2, sk2, m2, h2⟩ := ppL nm md la lf lm ra rf (rMult rlo rhi) k1 sk1 m1 llo lhi hl
+  rw [ppKeys, h1, h2]
+  rfl
 end
+
+
+/-! ### associations: the tree -/
+
+/-- INT tokens carry a non-empty ASCII digit string (always so for tokens from the lexer) -/
+def intOK : Tok → Bool
+  | .int s => s != "" && s.toList.all Char.isDigit
+  | _ => true
+
+theorem digitStr_of_intOK (s : String) (h : intOK (.int s) = true) : ∃ n, DigitStr s n := by
+  simp only [intOK, Bool.and_eq_true, bne_iff_ne, ne_eq] at h
+  have hnat : s.isNat = true := String.isNat_of_isDigit h.1 (fun c hc => by
+    have := h.2; rw [List.all_eq_true] at this; exact this c hc)
+  have : s.toNat?.isSome = true := by rw [String.isSome_toNat?]; exact hnat
+  obtain ⟨n, hn⟩ := Option.isSome_iff_exists.mp this
+  exact ⟨n, h.1, h.2, hn⟩
+
+theorem atomStr_of_atomTok (t : Tok) (a : Option Nat) (hi : intOK t = true) (h : atomTok t = some a) :
+    AtomStr (tokText t) a := by
+  cases t <;> simp only [atomTok, reduceCtorEq] at h
+  · rename_i s
+    obtain ⟨n, hd⟩ := digitStr_of_intOK s hi
+    rw [hd.val] at h
+    simp only [Option.map_some, Option.some.injEq] at h
+    exact Or.inr ⟨n, h.symm, hd⟩
+  · simp only [Option.some.injEq] at h
+    exact Or.inl ⟨h.symm, rfl⟩
+
+def atomNode (x : ITok) : PT := .rule "multatom" [leaf x]
+def multNode (x : ITok) (oy : Option (Nat × ITok)) : PT :=
+  .rule "mult" (match oy with | none => [atomNode x] | some (i, y) => [atomNode x, leaf (.range, i), atomNode y])
+
+/-- the model's bounds for the atoms of a `mult` -/
+def multBounds (a : Option Nat) (ob : Option (Option Nat)) : Nat × Option Nat := (a.getD 0, ob.getD a)
+
+theorem parseMult_single (x : ITok) (rest : List ITok)
+    (hne : ∀ (i : Nat) (y : ITok) (rest' : List ITok), rest = (Tok.range, i) :: y :: rest' → False) :
+    parseMult ((x :: rest).map Prod.fst) = (atomTok x.1).map (fun lo => ((lo.getD 0, lo), rest.map Prod.fst)) := by
+  simp only [List.map_cons]
+  unfold parseMult
+  split
+  · rename_i x' y' rest' heq
+    exfalso
+    simp only [List.cons.injEq] at heq
+    obtain ⟨i, r1, rfl, h1⟩ := map_fst_cons heq.2
+    cases r1 with
+    | nil => cases h1
+    | cons y r2 => exact hne _ _ _ rfl
+  · rename_i heq; simp only [List.cons.injEq] at heq; obtain ⟨rfl, rfl⟩ := heq; rfl
+  · rename_i heq; cases heq
+
+theorem mult_tie (its : List ITok) :
+    match treeMult its with
+    | none => parseMult (its.map Prod.fst) = none
+    | some (t, irest) =>
+      ∃ x oy a ob, t = multNode x oy ∧ atomTok x.1 = some a ∧ x ∈ its ∧
+        (match oy, ob with
+         | none, none => True
+         | some (_, y), some b => atomTok y.1 = some b ∧ y ∈ its
+         | _, _ => False) ∧
+        parseMult (its.map Prod.fst) = some (multBounds a ob, irest.map Prod.fst) ∧ ∀ z ∈ irest, z ∈ its := by
+  fun_cases treeMult its with
+  | case1 x i y rest h =>
+    simp only [isAtomTok, Bool.and_eq_true, Option.isSome_iff_exists] at h
+    obtain ⟨⟨a, hx⟩, ⟨b, hy⟩⟩ := h
+    refine ⟨x, some (i, y), a, some b, rfl, hx, by simp, ⟨hy, by simp⟩, ?_, fun z hz => by simp [hz]⟩
+    simp only [List.map_cons, parseMult, hx, hy]; rfl
+  | case2 x i y rest h =>
+    show parseMult _ = none
+    simp only [List.map_cons, parseMult]
+    simp only [isAtomTok, Bool.and_eq_true] at h
+    cases hx : atomTok x.1 with
+    | none => rfl
+    | some a =>
+      cases hy : atomTok y.1 with
+      | none => rfl
+      | some b => exact absurd ⟨by rw [hx]; rfl, by rw [hy]; rfl⟩ h
+  | case3 x rest hne h =>
+    have hp := parseMult_single x rest hne
+    simp only [isAtomTok, Option.isSome_iff_exists] at h
+    obtain ⟨a, hx⟩ := h
+    refine ⟨x, none, a, none, rfl, hx, by simp, trivial, ?_, fun z hz => by simp [hz]⟩
+    rw [hp, hx]; rfl
+  | case4 x rest hne h =>
+    show parseMult _ = none
+    rw [parseMult_single x rest hne]
+    simp only [isAtomTok, Bool.not_eq_true, Option.isSome_eq_false_iff, Option.isNone_iff_eq_none] at h
+    rw [h]; rfl
+  | case5 => rfl
+
+
+theorem filter_metas_meta (f : Nat) (its : List ITok) : (treeMetas f its).1.filter (isRule "meta") = (treeMetas f its).1 :=
+  List.filter_eq_self.mpr (fun x hx => by rw [treeMetas_isRule f its _ x hx]; rfl)
+theorem filter_metas_rule (f : Nat) (its : List ITok) (r : String) (h : (r == "meta") = false) :
+    (treeMetas f its).1.filter (isRule r) = [] :=
+  List.filter_eq_nil_iff.mpr (fun x hx => by rw [treeMetas_isRule f its _ x hx, h]; simp)
+theorem filter_metas_tok (f : Nat) (its : List ITok) (t : String) : (treeMetas f its).1.filter (isTok t) = [] :=
+  List.filter_eq_nil_iff.mpr (fun x hx => by rw [treeMetas_isTok f its _ x hx]; simp)
+
+def fieldNode (n : String) (i j k : Nat) : PT := .rule "field" [leaf (.lsquare, i), leaf (.id n, j), leaf (.rsquare, k)]
+def linkNode (n : String) (i : Nat) : PT := .rule "linkname" [leaf (.id n, i)]
+
+/-- the `association` node `treeAssociation` builds -/
+def assocNode (la lf name rf ra : String) (i1 i2 i3 i4 i5 i6 i7 i8 i9 i10 i11 : Nat) (lm rm : PT) (md : List PT) : PT :=
+  .rule "association" ([leaf (.id la, i1), fieldNode lf i2 i3 i4, lm, leaf (.larrow, i5), linkNode name i6,
+    leaf (.rarrow, i7), rm, fieldNode rf i8 i9 i10, leaf (.id ra, i11)] ++ md)
+
+/-- the `min`/`max` dict before post-processing -/
+def multVof (x : ITok) (oy : Option (Nat × ITok)) : V :=
+  multV (.str (tokText x.1)) (match oy with | none => .none | some (_, y) => .str (tokText y.1))
+
+theorem multatoms_acc (x : ITok) (oy : Option (Nat × ITok)) (up : List PT) :
+    ctxAcc accTable (.ctx (multNode x oy) up) "multatom" none =
+      .ok (.list (match oy with
+        | none => [.ctx (atomNode x) (multNode x oy :: up)]
+        | some (_, y) => [.ctx (atomNode x) (multNode x oy :: up), .ctx (atomNode y) (multNode x oy :: up)])) := by
+  cases oy with
+  | none => rfl
+  | some p => obtain ⟨i, y⟩ := p; rfl
+
+theorem atom_text (x : ITok) (up : List PT) : pyGetText (.ctx (atomNode x) up) = .ok (.str (tokText x.1)) := by
+  simp [pyGetText, atomNode, PT.text, leaf, PT.textL]; rfl
+
+section
+variable (c : V → M V) (toks : List V) (wf : Nat) (la lf name rf ra : String) (i1 i2 i3 i4 i5 i6 i7 i8 i9 i10 i11 : Nat)
+  (x x' : ITok) (oy oy' : Option (Nat × ITok)) (f : Nat) (its : List ITok) (up : List PT)
+
+
+
+theorem assocNode_linkname : ctxAcc accTable (.ctx (assocNode la lf name rf ra i1 i2 i3 i4 i5 i6 i7 i8 i9 i10 i11 (multNode x oy) (multNode x' oy') (treeMetas f its).1) up) "linkname" none = .ok (mkCtx (assocNode la lf name rf ra i1 i2 i3 i4 i5 i6 i7 i8 i9 i10 i11 (multNode x oy) (multNode x' oy') (treeMetas f its).1) up (linkNode name i6)) := by
+  simp only [assocNode, ctxAcc_eq acc_association_linkname, runAcc, PT.children, List.filter_append,
+    filter_metas_rule f its _ (by decide : ("linkname" == "meta") = false)]
+  rfl
+theorem assocNode_meta : ctxAcc accTable (.ctx (assocNode la lf name rf ra i1 i2 i3 i4 i5 i6 i7 i8 i9 i10 i11 (multNode x oy) (multNode x' oy') (treeMetas f its).1) up) "meta" none = .ok (.list ((treeMetas f its).1.map (mkCtx (assocNode la lf name rf ra i1 i2 i3 i4 i5 i6 i7 i8 i9 i10 i11 (multNode x oy) (multNode x' oy') (treeMetas f its).1) up))) := by
+  simp only [assocNode, ctxAcc_eq acc_association_meta, runAcc, PT.children, List.filter_append, filter_metas_meta]
+  rfl
+theorem assocNode_ID : ctxAcc accTable (.ctx (assocNode la lf name rf ra i1 i2 i3 i4 i5 i6 i7 i8 i9 i10 i11 (multNode x oy) (multNode x' oy') (treeMetas f its).1) up) "ID" none =
+    .ok (.list [mkCtx (assocNode la lf name rf ra i1 i2 i3 i4 i5 i6 i7 i8 i9 i10 i11 (multNode x oy) (multNode x' oy') (treeMetas f its).1) up (leaf (.id la, i1)), mkCtx (assocNode la lf name rf ra i1 i2 i3 i4 i5 i6 i7 i8 i9 i10 i11 (multNode x oy) (multNode x' oy') (treeMetas f its).1) up (leaf (.id ra, i11))]) := by
+  simp only [assocNode, ctxAcc_eq acc_association_ID, runAcc, PT.children, List.filter_append, filter_metas_tok]
+  rfl
+theorem assocNode_field : ctxAcc accTable (.ctx (assocNode la lf name rf ra i1 i2 i3 i4 i5 i6 i7 i8 i9 i10 i11 (multNode x oy) (multNode x' oy') (treeMetas f its).1) up) "field" none =
+    .ok (.list [mkCtx (assocNode la lf name rf ra i1 i2 i3 i4 i5 i6 i7 i8 i9 i10 i11 (multNode x oy) (multNode x' oy') (treeMetas f its).1) up (fieldNode lf i2 i3 i4), mkCtx (assocNode la lf name rf ra i1 i2 i3 i4 i5 i6 i7 i8 i9 i10 i11 (multNode x oy) (multNode x' oy') (treeMetas f its).1) up (fieldNode rf i8 i9 i10)]) := by
+  simp only [assocNode, ctxAcc_eq acc_association_field, runAcc, PT.children, List.filter_append,
+    filter_metas_rule f its _ (by decide : ("field" == "meta") = false)]
+  rfl
+theorem assocNode_mult : ctxAcc accTable (.ctx (assocNode la lf name rf ra i1 i2 i3 i4 i5 i6 i7 i8 i9 i10 i11 (multNode x oy) (multNode x' oy') (treeMetas f its).1) up) "mult" none =
+    .ok (.list [mkCtx (assocNode la lf name rf ra i1 i2 i3 i4 i5 i6 i7 i8 i9 i10 i11 (multNode x oy) (multNode x' oy') (treeMetas f its).1) up (multNode x oy), mkCtx (assocNode la lf name rf ra i1 i2 i3 i4 i5 i6 i7 i8 i9 i10 i11 (multNode x oy) (multNode x' oy') (treeMetas f its).1) up (multNode x' oy')]) := by
+  simp only [assocNode, ctxAcc_eq acc_association_mult, runAcc, PT.children, List.filter_append,
+    filter_metas_rule f its _ (by decide : ("mult" == "meta") = false)]
+  rfl
+
+theorem getItem_list0 (a b : V) : pyGetItem (.list [a, b]) (.int 0) = .ok a := rfl
+theorem getItem_list1 (a b : V) : pyGetItem (.list [a, b]) (.int 1) = .ok b := rfl
+theorem pyIter_list (l : List V) : pyIter (.list l) = .ok l := rfl
+theorem leaf_text (t : ITok) (up : List PT) : pyGetText (.ctx (leaf t) up) = .ok (.str (tokText t.1)) := rfl
+theorem pop0 (a : V) (r : List V) : pyPop (.list (a :: r)) (some (.int 0)) = .ok (a, .list r) := rfl
+theorem popLast1 (a : V) : pyPop (.list [a]) Option.none = .ok (a, .list []) := rfl
+theorem pyDict_mult (a b : V) : pyDict [(V.str "min", a), (V.str "max", b)] = .ok (multV a b) := rfl
+
+theorem visitAssociation_eval (g : Nat) (hg : 2 ≤ g) (hgm : PT.depthL (treeMetas f its).1 ≤ g) :
+    visitAssociation (selfAt c toks wf g) (.ctx (assocNode la lf name rf ra i1 i2 i3 i4 i5 i6 i7 i8 i9 i10 i11 (multNode x oy) (multNode x' oy') (treeMetas f its).1) up) =
+      _post_process_multitudes (selfAt c toks wf g)
+        (assocV (.str name) (rMeta (parseMetas f [] (its.map Prod.fst)).1) (.str la) (.str lf) (multVof x oy) (.str ra) (.str rf)
+          (multVof x' oy')) := by
+  unfold visitAssociation
+  rw [show (selfAt c toks wf g).visit = visitF c toks wf g from rfl]
+  simp only [assocNode_linkname, assocNode_meta, assocNode_ID, assocNode_field, assocNode_mult, okBind]
+  have hlink := fun up' => linkname_tie c toks wf name i6 g up' hg
+  have hfield := fun n i j k up' => field_tie c toks wf n i j k g up' hg
+  simp only [linkNode, fieldNode] at *
+  simp only [mkCtx, hlink, hfield, getItem_list0, getItem_list1, okBind, pyIter_list, leaf_text, multatoms_acc]
+  rw [metas_forIn2 c toks wf f its g _ up hgm]
+  simp only [okBind]
+  have fin : ∀ (l r : V), (do
+      let d ← pyDict []
+      let d ← pySetItem d (V.str "name") (V.str name)
+      let d ← pySetItem d (V.str "meta") (rMeta (parseMetas f [] (List.map Prod.fst its)).fst)
+      let d ← pySetItem d (V.str "leftAsset") (V.str (tokText (Tok.id la)))
+      let d ← pySetItem d (V.str "leftField") (V.str lf)
+      let d ← pySetItem d (V.str "leftMultiplicity") l
+      let d ← pySetItem d (V.str "rightAsset") (V.str (tokText (Tok.id ra)))
+      let d ← pySetItem d (V.str "rightField") (V.str rf)
+      let d ← pySetItem d (V.str "rightMultiplicity") r
+      let d ← _post_process_multitudes (selfAt c toks wf g) d
+      pure d : M V) = _post_process_multitudes (selfAt c toks wf g)
+        (assocV (.str name) (rMeta (parseMetas f [] (its.map Prod.fst)).1) (.str la) (.str lf) l (.str ra) (.str rf) r) := by
+    intro l r
+    rfl
+  rcases oy with _ | ⟨i, y⟩ <;> rcases oy' with _ | ⟨i', y'⟩ <;>
+    simp only [pop0, popLast1, atom_text, okBind, truthy, List.isEmpty_nil, List.isEmpty_cons, pyDict_mult, multVof,
+      Bool.not_true, Bool.not_false, Bool.false_eq_true, if_false, if_true, bind_pure, fin]
+end
+
+
+theorem multOK_of (x : ITok) (oy : Option (Nat × ITok)) (a : Option Nat) (ob : Option (Option Nat))
+    (hx : atomTok x.1 = some a) (hix : intOK x.1 = true)
+    (hy : match oy, ob with
+         | none, none => True
+         | some (_, y), some b => atomTok y.1 = some b ∧ intOK y.1 = true
+         | _, _ => False) :
+    MultOK (multVof x oy) (multBounds a ob).1 (multBounds a ob).2 := by
+  have hax := atomStr_of_atomTok x.1 a hix hx
+  rcases oy with _ | ⟨i, y⟩ <;> rcases ob with _ | b
+  · exact ⟨_, a, hax, rfl, Or.inl ⟨rfl, rfl⟩⟩
+  · exact hy.elim
+  · exact hy.elim
+  · exact ⟨_, a, hax, rfl, Or.inr ⟨_, b, atomStr_of_atomTok y.1 b hy.2 hy.1, rfl, rfl⟩⟩
+
+theorem map_fst_ne_link (irest : List ITok)
+    (h : ∀ (i5 : Nat) (name : String) (i6 i7 : Nat) (r2 : List ITok),
+      irest = (Tok.larrow, i5) :: (Tok.id name, i6) :: (Tok.rarrow, i7) :: r2 → False)
+    (name : String) (r2 : List Tok) : irest.map Prod.fst = Tok.larrow :: Tok.id name :: Tok.rarrow :: r2 → False := by
+  intro heq
+  obtain ⟨i, r1, rfl, h1⟩ := map_fst_cons heq
+  obtain ⟨j, r2', rfl, h2⟩ := map_fst_cons h1
+  obtain ⟨k, r3', rfl, h3⟩ := map_fst_cons h2
+  exact h _ _ _ _ _ rfl
+
+theorem map_fst_ne_tail (irest : List ITok)
+    (h : ∀ (i8 : Nat) (rf : String) (i9 i10 : Nat) (ra : String) (i11 : Nat) (r3 : List ITok),
+      irest = (Tok.lsquare, i8) :: (Tok.id rf, i9) :: (Tok.rsquare, i10) :: (Tok.id ra, i11) :: r3 → False)
+    (rf ra : String) (r3 : List Tok) :
+    irest.map Prod.fst = Tok.lsquare :: Tok.id rf :: Tok.rsquare :: Tok.id ra :: r3 → False := by
+  intro heq
+  obtain ⟨i, r1, rfl, h1⟩ := map_fst_cons heq
+  obtain ⟨j, r2', rfl, h2⟩ := map_fst_cons h1
+  obtain ⟨k, r3', rfl, h3⟩ := map_fst_cons h2
+  obtain ⟨l, r4', rfl, h4⟩ := map_fst_cons h3
+  exact h _ _ _ _ _ _ _ rfl
 
 end MalVerif.Py.Visitor
